@@ -105,3 +105,20 @@ Theorem C05_ascending_path_invariant :
     (forall y vy, In (y, vy) D -> snd pv <= vy) ->
     INV adj D f -> INV adj (D ++ [pv]) (step adj np f pv).
 Proof. exact INV_step. Qed.
+
+(* the same on Dendrogram.compute itself (grid adjacency, default or periodic; no pruning
+   parameters): the final sorting of the trunk and renaming of identifiers change neither which
+   structures are leaves nor their pixels *)
+From Dendro Require Import Grid ComputeNP.
+Theorem C05_compute_leaves_are_the_regional_maxima :
+  forall shape per vals minv, Forall (fun n => 0 < n) shape ->
+  let order := order_of (kept vals minv) in
+  let adj := nbrs shape per in
+  (forall t', In t' (fnodes (compute shape (AdjGrid per) vals minv [])) -> is_leaf t' = true ->
+     (exists z, topof t' z) /\
+     (forall z, topof t' z -> regmax adj order z /\ forall b, sim adj order z b -> topof t' b) /\
+     (forall z1 z2, topof t' z1 -> topof t' z2 -> sim adj order z1 z2)) /\
+  (forall a, regmax adj order a ->
+     exists t', In t' (fnodes (compute shape (AdjGrid per) vals minv [])) /\ topof t' a).
+Proof. exact compute_leaves_are_regional_maxima. Qed.
+Print Assumptions C05_compute_leaves_are_the_regional_maxima.
